@@ -110,6 +110,11 @@ def draw_opt(rng, name, dim, mode="interior"):
             special = [v for v in SPECIAL_VALUES.get(arg, []) if lo_eff <= v <= hi_eff and (v > lo or typ[0] == "c") and (v < hi or typ[1] == "c")]
             if special and rng.random() < 0.25:
                 out[arg] = float(rng.choice(special))
+                if rng.random() < 0.3:
+                    # a hair beside the round value (inside tolerant comparisons such as isclose, outside exact ones)
+                    near = out[arg] * (1.0 + float(rng.choice([-1.0, 1.0])) * 2e-6)
+                    if lo_eff <= near <= hi_eff and (near > lo) and (near < hi):
+                        out[arg] = near
     if name == "TPLStable" and "hurst" in out and "alpha" in out:
         # documented: 0 < H < alpha/2
         out["hurst"] = min(out["hurst"], round(0.45 * out["alpha"], 4))
@@ -134,6 +139,17 @@ def draw_model(rng, name, dim, opt_mode="interior", aniso=True, nugget=True, var
     if aniso and dim > 1:
         desc["anis"] = [round(float(np.exp(rng.uniform(np.log(0.25), np.log(4.0)))), 4) for _ in range(dim - 1)]
         desc["angles"] = [round(float(rng.uniform(-np.pi, np.pi)), 4) for _ in range(n_angles(dim))]
+        # geometry classes in which shortcuts of an implementation live: stretched but not rotated, rotated with all ratios 1,
+        # ratios within the isclose tolerance of 1, right angles
+        g = rng.random()
+        if g < 0.15:
+            desc["angles"] = [0.0] * n_angles(dim)
+        elif g < 0.27:
+            desc["anis"] = [1.0] * (dim - 1)
+        elif g < 0.33:
+            desc["anis"] = [round(1.0 + float(rng.choice([-1.0, 1.0])) * float(rng.uniform(2e-6, 8e-6)), 9) for _ in range(dim - 1)]
+        elif g < 0.38:
+            desc["angles"] = [float(rng.choice([np.pi / 2, -np.pi / 2, np.pi, 1e-7, 0.0])) for _ in range(n_angles(dim))]
     opt = draw_opt(rng, name, dim, opt_mode)
     if opt:
         desc["opt"] = opt
